@@ -17,8 +17,9 @@ What is required of a result
   quotient of the decimal renderings (either reading passes); MOD has the sign of d, a MOD within
   that tolerance of 0 counts as either sign (rule fixed in DESIGN.md).
 * CEILING/FLOOR/.MATH/.PRECISE: the adjacent multiple of the significance named by Excel's
-  documented sign conventions, within 8 ulp of max(|x|, |multiple|) (a result such as 0.1*3 =
-  0.30000000000000004 for the multiple 0.3 passes; a result one whole significance away does not).
+  documented sign conventions, within 8 ulp of max(|x|, |multiple|) and on the same side of x as that
+  multiple ("bracketing": FLOOR(0.3, 0.1) = 0.30000000000000004 > x does not pass, a multiple equal to x
+  comes back as x; a result one whole significance away does not pass either).
 
 Deliberately permissive (statement silent / Excel versions differ)
 * CEILING/FLOOR with number and significance of different sign: #NUM! or the mathematical
@@ -230,6 +231,14 @@ def judge_family(F, shown, nums, got):
     g = R.binary(got)
     for a in accept:
         if isinstance(a, Fraction) and abs(g - a) <= R.ulp_tol(x, a):
+            # "bracketing x": the returned double lies on the side of x on which the multiple lies, and a
+            # multiple that is x itself comes back as x (0.30000000000000004 is not FLOOR(0.3, 0.1): it is
+            # larger than x).  Correctly rounded results satisfy this, rounding is monotone.
+            X, gx = R.frac(x), R.binary(x)
+            if (a == X and g != gx) or (a < X and g > gx) or (a > X and g < gx):
+                return (f'{F}/result-on-the-wrong-side-of-x',
+                        f'{shown} = {got!r}: the multiple is {fmt(a)}, x is {fmt(X)}, but the returned double '
+                        f'{"differs from x" if a == X else "lies on the other side of x"}')
             return None
     key = f'{F}/unclassified'
     sq = R.frac(s)
